@@ -629,9 +629,66 @@ func prune(fn *ssa.Function) {
 }
 
 // constVal evaluates v to a boolean/nil-ness constant under an assignment of the block's phis.
+// edgeFacts: what the branches on the way into pred established — walking back from pred through blocks with a
+// single predecessor, every `if c` passed on its true (false) edge makes c true (false). Used to decide a test that
+// repeats an earlier one on the same values (a helper's `if err != nil { return err }` followed by the caller's).
+func edgeFacts(pred *ssa.BasicBlock) map[ssa.Value]bool {
+	facts := map[ssa.Value]bool{}
+	b := pred
+	for steps := 0; steps < 16 && len(b.Preds) == 1; steps++ {
+		p := b.Preds[0]
+		if iff, ok := p.Instrs[len(p.Instrs)-1].(*ssa.If); ok && len(p.Succs) == 2 && p.Succs[0] != p.Succs[1] {
+			facts[iff.Cond] = p.Succs[0] == b
+		}
+		b = p
+	}
+	return facts
+}
+
+// sameTest: two comparison instructions test the same thing (same operator and operands; constants by value).
+func sameTest(a, b ssa.Value) bool {
+	x, ok1 := a.(*ssa.BinOp)
+	y, ok2 := b.(*ssa.BinOp)
+	if !ok1 || !ok2 || x.Op != y.Op {
+		return false
+	}
+	same := func(u, v ssa.Value) bool {
+		if u == v {
+			return true
+		}
+		cu, ok1 := u.(*ssa.Const)
+		cv, ok2 := v.(*ssa.Const)
+		if ok1 && ok2 {
+			if cu.Value == nil || cv.Value == nil {
+				return cu.Value == nil && cv.Value == nil
+			}
+			return constant.Compare(cu.Value, token.EQL, cv.Value)
+		}
+		return false
+	}
+	return same(x.X, y.X) && same(x.Y, y.Y)
+}
+
+var curFacts map[ssa.Value]bool
+
 func evalCond(v ssa.Value, blk *ssa.BasicBlock, edge int, depth int) (val bool, known bool) {
 	if depth > 6 {
 		return false, false
+	}
+	if bo, ok := v.(*ssa.BinOp); ok && curFacts != nil {
+		// substitute the block's phis by the values of this edge, then look the test up among the established facts
+		probe := *bo
+		if ph, ok := probe.X.(*ssa.Phi); ok && blk != nil && ph.Block() == blk {
+			probe.X = ph.Edges[edge]
+		}
+		if ph, ok := probe.Y.(*ssa.Phi); ok && blk != nil && ph.Block() == blk {
+			probe.Y = ph.Edges[edge]
+		}
+		for c, truth := range curFacts {
+			if sameTest(&probe, c) {
+				return truth, true
+			}
+		}
 	}
 	switch x := v.(type) {
 	case *ssa.Const:
@@ -871,9 +928,11 @@ func thread(fn *ssa.Function) bool {
 			}
 			var dec []decided
 			for i := range k.Preds {
+				curFacts = edgeFacts(k.Preds[i])
 				if v, known := evalCond(iff.Cond, k, i, 0); known {
 					dec = append(dec, decided{i, v})
 				}
+				curFacts = nil
 			}
 			if os.Getenv("GLB_THREAD_DEBUG") != "" {
 				fmt.Fprintf(os.Stderr, "   decided %v cond=%s\n", dec, iff.Cond)
